@@ -2,7 +2,7 @@
    Statements only; proofs in RebuildProofs.v. *)
 From Coq Require Import QArith.
 From HS Require Import Prelude Cov Map Spec Ops Spec2 Params AtFold MapProofs UpdateProofs HistoryProofs
-     LayoutProofs AccountProofs OpsProofs RebuildProofs FracdetProofs Exec Exec2 ExecProofs.
+     LayoutProofs AccountProofs OpsProofs RebuildProofs FracdetProofs CongRefine Exec Exec2 ExecProofs.
 Open Scope Z_scope.
 
 Section C15.
@@ -15,6 +15,13 @@ Theorem C15_upgrade_replicates :
   forall (r : Z) (m : smap V) p, wf P m -> 0 < r -> 0 <= p < npix V m * r ->
     read V (p_dv P) (upgrade V r m) p = read V (p_dv P) m (p / r).
 Proof. exact (upgrade_read P). Qed.
+
+(* the same at the level of the whole map: the abstraction of the upgraded map is the dense upgrade
+   (resolution, every pixel, coverage mask, blank value) *)
+Theorem C15_upgrade_refines :
+  forall (r : Z) (m : smap V), wf P m -> 0 < r ->
+    abs V (p_dv P) (upgrade V r m) = d_upgrade V (p_dv P) r (abs V (p_dv P) m).
+Proof. exact (upgrade_refines P). Qed.
 
 Theorem C15_upgrade_keeps_layout :
   forall (r : Z) (m : smap V), wf P m -> 0 < r -> wf P (upgrade V r m).
@@ -64,6 +71,7 @@ Proof.
 Qed.
 
 Print Assumptions C15_upgrade_replicates.
+Print Assumptions C15_upgrade_refines.
 Print Assumptions C15_upgrade_keeps_layout.
 Print Assumptions C15_degrade_of_upgrade_is_identity.
 Print Assumptions C15_fracdet_is_the_fraction_of_valid_children.
